@@ -221,21 +221,24 @@ Proof.
   ds s1. prj. subst. destruct grp; destruct sd as [idx|]; unfold finish_stop; prj; (split; [|reflexivity]); jgo.
 Qed.
 
-Lemma coord_stop_J_c : forall r st s, Jcore r s -> consumers s = [] ->
-  Jcore r (fst (coord_stop st s)).
+Lemma coord_stop_J : forall r st s, Jcore r s -> consumers s = [] ->
+  let s' := fst (coord_stop st s) in
+  Jcore r s' /\ (start_d s <> None \/ stopping s = true -> stopping s' = true) /\
+  (start_d s = None -> stopping s = false -> same_core (if is_group s then set_stop_requested false s else s) s').
 Proof.
-  intros r st s H Hc. ds s. prj. subst cs. unfold coord_stop. prj.
+  intros r st s H Hc. ds s. prj. subst cs.
   destruct sd as [idx|].
-  2:{ unfold finish_stop. prj. destruct grp; jgo. }
+  2:{ destruct grp; unfold coord_stop, finish_stop; prj; (split; [jgo|split; [intros [X|X]; [congruence|exact X]|intros _ _; frame]]). }
   destruct stp.
-  { unfold finish_stop. prj. destruct grp; prj; auto; jgo. }
+  { destruct grp; unfold coord_stop, finish_stop; prj; (split; [jgo|split; [intros _; reflexivity|intros; congruence]]). }
   assert (C2 : cnt has_s2 sts = 0%nat). { destruct H. prj. intuition congruence. }
-  destruct dc0 as [|id|]; unfold finish_stop, hb_stop, remove_timer; prj.
-  3:{ destruct grp; prj; auto; jgo. }
-  all: destruct hbq as [rid|]; prj; destruct hbr; prj; destruct (ck && negb (mem =? 0)); prj.
+  destruct dc0 as [|id|].
+  3:{ destruct grp; unfold coord_stop, finish_stop; prj; (split; [jgo|split; [intros _; reflexivity|intros; congruence]]). }
+  all: destruct hbq as [rid|]; destruct hbr; destruct ck; destruct (mem =? 0) eqn:M;
+       unfold coord_stop, finish_stop, hb_stop, remove_timer; prj; rewrite ?M; prj.
   all: try match goal with |- context [stop_tail ?st0 ?s0] =>
          let X := fresh in assert (X : Jcore r s0) by jgo;
          let Y := fresh in pose proof (stop_tail_J r st0 s0 eq_refl C2 X) as Y;
-         destruct (stop_tail st0 s0) as [s3 o4]; prj; destruct Y; assumption end.
-  all: jgo.
+         destruct (stop_tail st0 s0) as [s3 o4]; prj; destruct Y; split; [|split; [intros _|intros; congruence]]; assumption end.
+  all: (split; [|split; [intros _|intros; congruence]]; [jgo|reflexivity]).
 Time Qed.
